@@ -13,6 +13,21 @@ T = [
  ("C06-A", "C06", "C06.R6", "freeze hoisted around the whole set"),
  ("C06-B", "C06", "C06.R7", "http matcher memoises the request before the h2 preface/frames are read"),
  ("C07-B", "C06", "C06.R4", "tls matcher answers 'no' when fewer bytes than the record length are buffered"),
+ ("C01-B", "C08", "C08.R3", "listener.handle recycles the buffer of a hijacked connection"),
+ ("C01-B", "C13", "C13.R3", "listener.handle recycles the buffer of a hijacked connection"),
+ ("fixrev-eecd844", "C13", "C13.R3", "reversal of the listener buffer fix"),
+ ("C08-A", "C08", "C08.R3", "prefetch adopts the pooled temporary chunk as the matching buffer"),
+ ("C08-A", "C01", "C01.R4", "prefetch adopts the pooled temporary chunk as the matching buffer"),
+ ("C08-B", "C08", "C08.R2", "package-level FNV hasher shared by all connections"),
+ ("fixrev-3cbc344", "C08", "C08.R1", "round robin counter read plainly"),
+ ("fixrev-1c16de7", "C08", "C08.R2", "lastDigest plain field written per connection"),
+ ("fixrev-608c2b6", "C08", "C08.R5", "bytesWritten plain +="),
+ ("C09-A", "C09", "C09.R5", "close notification dropped when the channel is full"),
+ ("C09-B", "C09", "C09.R4", "second serve loop on a socket"),
+ ("fixrev-b058322", "C09", "C09.R1", "readCh closed by the receiver side while the loop sends"),
+ ("C13-A", "C13", "C13.R4", "loop waits for handlers before draining"),
+ ("C13-B", "C13", "C13.R7", "isTerminal hoisted: terminal route after a non-terminal one treated as non-terminal"),
+ ("C13-B", "C02", "C02.R7", "isTerminal hoisted"),
  ("C05-A", "C05", "C05.R2", "deadline armed once only; not re-armed after a matched non-terminal route"),
  ("C05-B", "C05", "C05.R5", "buffer limit measured from the cursor"),
  ("fixrev-396f23a", "C05", "C05.R2", "fallback of an empty route list runs with the deadline armed"),
